@@ -23,7 +23,8 @@ package catchup
 // run to quiescence (synctest.Wait) between two decisions. What a peer answers is fixed per
 // execution by a response script: (round, attempt) -> menu entry, everything not named by the
 // script is genuine (so a genuine answer is always eventually available). Menu (c30Menu):
-// genuine, payset altered, header altered, consistent fork sibling with its own certificate,
+// genuine, payset with a foreign txn appended / emptied / last txn dropped / first txn dropped /
+// a txn duplicated / two txns swapped (all with the genuine header and certificate), header altered, consistent fork sibling with its own certificate,
 // certificate of another round, certificate of another block of the same round, genuine block +
 // forged certificate, block of round r-1, block of round r+1, undecodable bytes, no-block
 // error, timeout (really waits for the fetcher's context deadline on the virtual clock),
@@ -58,7 +59,7 @@ package catchup
 // Not covered: which of the two peers is asked (chosen by the real selector with crypto/rand;
 // answers are a function of (round, attempt) only, so the script space has no peer dimension);
 // the HTTP fetcher; a second writer (agreement) racing with catchup; requests beyond the chain
-// tip (cut off with the service's own SetDisableSyncRound); certificate cryptography (C03/C04);
+// tip (cut off with the service's own SetDisableSyncRound); certificate cryptography (C03/C04: the authenticator here is a token authenticator);
 // interleavings inside the service's own goroutines below the granularity "run to quiescence
 // after each released response / granted write"; the unsupported-protocol answer at rounds other
 // than 1 and tip (see syncAllowed); a panic in a service goroutine aborts the binary (exit 2, not a
@@ -80,6 +81,11 @@ package catchup
 //       a bad first answer, then a payset-altered retry)
 //   M8  service.go pipelinedFetch: `prev := s.ledger.WaitMem(r.SubSaturate(2))` DETECTED (write-out-of-order)
 //   M9  service.go fetchAndWrite: `if s.cfg.CatchupVerifyCertificate() && i > 1` DETECTED
+//   S1  seeded C30-A (contents check only when len(block.Payset) > 0)            DETECTED by payset-emptied (D1)
+//   S2  seeded C29-B (contents check skipped on a retry with a remembered header hash) DETECTED by the D2 scripts
+//       (genuine block + non-authenticating cert, then same header + tampered payset)
+//   (seeded C30-B, a forged certificate that authenticates because of agreement/bundle.go, is out of reach of
+//   the token authenticator used here: C03/C04)
 //   M10 service.go fetchAndWrite: on a retry wait for lookbackComplete instead of prevFetchCompleteChan
 //       before the write (`if i > 1 { prevFetchCompleteChan = lookbackComplete }`)  DETECTED
 
@@ -133,12 +139,18 @@ const (
 	c30Timeout
 	c30ReqError
 	c30UnsupportedProto
+	c30PaysetEmptied
+	c30PaysetLastDropped
+	c30PaysetFirstDropped
+	c30PaysetTxnDuplicated
+	c30PaysetSwapped
 	c30MenuSize
 )
 
-var c30Menu = [c30MenuSize]string{"genuine", "payset-altered", "header-altered", "fork-pair", "cert-other-round",
+var c30Menu = [c30MenuSize]string{"genuine", "payset-extra-txn", "header-altered", "fork-pair", "cert-other-round",
 	"cert-other-block", "forged-cert", "block-prev-round", "block-next-round", "garbage", "no-block", "timeout",
-	"req-error", "unsupported-proto"}
+	"req-error", "unsupported-proto", "payset-emptied", "payset-last-dropped", "payset-first-dropped",
+	"payset-txn-duplicated", "payset-two-swapped"}
 
 type c30Reply struct {
 	kind int // 0 topics, 1 wait for ctx (timeout), 2 immediate error
@@ -199,7 +211,7 @@ func c30Successor(prev bookkeeping.BlockHeader, variant string) bookkeeping.Bloc
 	b := bookkeeping.MakeBlock(prev)
 	b.TimeStamp = prev.TimeStamp + 4 // MakeBlock reads the wall clock
 	b.BlockHeader.Seed = committee.Seed(crypto.Hash([]byte(fmt.Sprintf("c30-seed-%d-%s", b.Round(), variant))))
-	n := 1 + int(b.Round())%2
+	n := 2 + int(b.Round())%2 // every block carries 2 or 3 transactions, so that all payset-shape entries differ from genuine
 	for i := 0; i < n; i++ {
 		b.Payset = append(b.Payset, c30Txn(b.BlockHeader, fmt.Sprintf("c30/%d/%d/%s", b.Round(), i, variant), uint64(b.Round())*10+uint64(i)))
 	}
@@ -267,6 +279,20 @@ func c30BuildChain(tip int) *c30Chain {
 		up := pa
 		up.CurrentProtocol = "c30-unknown-protocol"
 		m[c30UnsupportedProto] = c30Topics(up, c)
+		// payset-shape tampering: genuine header + genuine certificate, transactions removed / repeated / reordered
+		shape := func(ps transactions.Payset) c30Reply {
+			t := b
+			t.Payset = ps
+			return c30Topics(t, c)
+		}
+		np := len(b.Payset)
+		m[c30PaysetEmptied] = shape(nil)
+		m[c30PaysetLastDropped] = shape(append(transactions.Payset{}, b.Payset[:np-1]...))
+		m[c30PaysetFirstDropped] = shape(append(transactions.Payset{}, b.Payset[1:]...))
+		m[c30PaysetTxnDuplicated] = shape(append(append(transactions.Payset{}, b.Payset...), b.Payset[0]))
+		sw := append(transactions.Payset{}, b.Payset...)
+		sw[0], sw[np-1] = sw[np-1], sw[0]
+		m[c30PaysetSwapped] = shape(sw)
 		ch.replies[r] = m
 	}
 	return ch
@@ -297,8 +323,23 @@ func (ch *c30Chain) selfCheck() error {
 		if err != nil || g.Block.Hash() != ch.hashes[r] || !g.Block.ContentsMatchHeader() {
 			return fmt.Errorf("round %d: genuine reply does not round-trip (%v)", r, err)
 		}
-		if e, err := dec(c30PaysetAltered); err != nil || e.Block.Hash() != ch.hashes[r] || e.Block.ContentsMatchHeader() {
-			return fmt.Errorf("round %d: payset-altered entry is not (same header, mismatching payset)", r)
+		if len(ch.blocks[r].Payset) < 2 {
+			return fmt.Errorf("round %d: genuine block carries fewer than 2 transactions", r)
+		}
+		seen := map[string]int{string(ch.blockEnc[r]): c30Genuine}
+		for _, pm := range []int{c30PaysetAltered, c30PaysetEmptied, c30PaysetLastDropped, c30PaysetFirstDropped, c30PaysetTxnDuplicated, c30PaysetSwapped} {
+			e, err := dec(pm)
+			if err != nil || e.Block.Hash() != ch.hashes[r] || e.Block.ContentsMatchHeader() {
+				return fmt.Errorf("round %d: %s entry is not (same header, mismatching payset): %v", r, c30Menu[pm], err)
+			}
+			enc := string(protocol.Encode(&e.Block))
+			if other, dup := seen[enc]; dup {
+				return fmt.Errorf("round %d: %s entry is identical to %s", r, c30Menu[pm], c30Menu[other])
+			}
+			seen[enc] = pm
+		}
+		if e, _ := dec(c30PaysetEmptied); len(e.Block.Payset) != 0 {
+			return fmt.Errorf("round %d: payset-emptied entry still carries transactions", r)
 		}
 		if e, err := dec(c30HeaderAltered); err != nil || e.Block.Hash() == ch.hashes[r] || !e.Block.ContentsMatchHeader() {
 			return fmt.Errorf("round %d: header-altered entry is not (other header, matching payset)", r)
